@@ -76,6 +76,10 @@ func init() {
 					id = g.item(fmt.Sprintf("sample:%d", (c+i)%nSamples))
 				case 2:
 					id = g.item(fmt.Sprintf("rune:%d", []int{65, 0x4e16, 0xe9, 0x1F600, 10, 0, -1, 0xD800, 0xDFFF, 0x10FFFF, 0x110000, 0x7f, 0x80, 0x7ff, 0x800, 0xffff, 0x10000}[r.n(17)]))
+					if r.chance(1, 2) {
+						// any code point at all (most are not in the hand-picked list above), and a few past the range
+						id = g.item(fmt.Sprintf("rune:%d", r.n(0x110400)-0x200))
+					}
 				default:
 					id = g.anyItem(alpha, 3)
 				}
@@ -132,6 +136,14 @@ func init() {
 			checkProbe(g, z, &viol)
 			nested := g.item("cell:" + it)
 			checkProbe(g, nested, &viol)
+			if c%8 == 0 {
+				// a Cell in a Cell in a Cell ... a dozen deep, by value and by pointer alternately
+				deep := nested
+				for d := 0; d < 6+r.n(10); d++ {
+					deep = g.item([]string{"cell:", "cellptr:"}[d%2] + deep)
+				}
+				checkProbe(g, deep, &viol)
+			}
 			return viol, nil, true
 		},
 	}
@@ -233,6 +245,9 @@ func init() {
 				g.do("addheaders " + aux + " " + pick(2+r.n(3)))
 			}
 			nops := 1 + r.n(10)
+			if c%25 == 0 {
+				nops = 55 + r.n(60) // past the row list's initial capacity and a doubling beyond
+			}
 			var known []int // all non-separator rows with a cell slice, attached or not
 			for i := 0; i < nops; i++ {
 				switch k := r.n(12); {
@@ -359,7 +374,11 @@ func init() {
 				e := g.do("ecnew " + k)
 				var want []string
 				next := 1
-				for i := 0; i < 1+r.n(6); i++ {
+				steps := 1 + r.n(6)
+				if c%15 == 0 {
+					steps = 40 + r.n(60) // a container that has seen a hundred errors
+				}
+				for i := 0; i < steps; i++ {
 					if r.chance(1, 2) {
 						v := "nil"
 						if r.chance(2, 3) {
@@ -372,7 +391,11 @@ func init() {
 						g.do("ecadd " + e + " " + v)
 					} else {
 						var l []string
-						for j := 0; j < r.n(4); j++ {
+						ln := r.n(4)
+						if r.chance(1, 12) {
+							ln = 17 + r.n(20) // a list longer than the scratch buffer's spare capacity
+						}
+						for j := 0; j < ln; j++ {
 							if r.chance(1, 3) {
 								l = append(l, "nil")
 							} else {
@@ -614,16 +637,24 @@ func init() {
 				alias["h:"+h[1:]] = fmt.Sprintf("c:%d:%s", ti, strings.Fields(last)[2])
 			}
 			keys := []string{"u0", "u1", "u2", "u3", "u4", "u5", "u6", "u7", "u8", "u9", "u10", "u11"}
+			if c%6 == 0 {
+				for k := 12; k < 40; k++ { // dozens of keys on one owner
+					keys = append(keys, fmt.Sprintf("u%d", k))
+				}
+			}
 			deep := ""
 			if c%3 == 0 {
 				deep = owners[6+r.n(3)] // a cell that will carry 9-12 keys
 			}
 			nops := 8 + r.n(20)
+			if len(keys) > 12 {
+				nops += 36
+			}
 			ptrN := 0
 			for i := 0; i < nops; i++ {
 				o := owners[r.n(len(owners))]
 				k := keys[r.n(len(keys))]
-				if deep != "" && i < 12 {
+				if deep != "" && i < len(keys) && i < nops-6 {
 					o, k = deep, keys[i]
 				}
 				switch q := r.n(10); {
@@ -804,6 +835,16 @@ func init() {
 			if r.chance(1, 2) {
 				register(fmt.Sprintf("x:%s:0", pre[1:]))
 			}
+			if c%10 == 3 {
+				// a table past 32 and 64 columns, with callbacks on columns on either side of those marks
+				wide := []int{33, 40, 64, 65, 70}[(c/10)%5]
+				rows = append(rows, g.do("addrowitems "+t+" "+mk(wide)))
+				for _, n := range []int{31, 32, 33, 63, 64, 65, wide} {
+					if n <= wide {
+						register(fmt.Sprintf("c:%d:%d", ti, n))
+					}
+				}
+			}
 			if r.chance(1, 4) {
 				// callbacks on the currently last column, then growth past the initial capacity of 10
 				register(fmt.Sprintf("c:%d:%d", ti, g.x.tables[ti].NColumns()))
@@ -958,6 +999,9 @@ func expectedRenderLog(g *Gen, ti int, regs []reg) []string {
 
 // ---------- C14: repeatability ----------
 
+// manyProps: how many user keys the C14 stream may set on one cell (and snapshot reads back)
+const manyProps = 24
+
 func snapshot(g *Gen, t string) string {
 	var b strings.Builder
 	b.WriteString(g.do("obs " + t))
@@ -967,6 +1011,21 @@ func snapshot(g *Gen, t string) string {
 	}
 	for _, rw := range tb.AllRows() {
 		b.WriteString("|" + g.do(fmt.Sprintf("rowobs R%d", g.x.rowID[rw])))
+	}
+	// the first cell of every row and of the header: every user key that a case may have set on it
+	rowIDs := []int{}
+	if h, ok := g.x.hdrOf[idOf(t)]; ok && len(tb.Headers()) > 0 {
+		rowIDs = append(rowIDs, h)
+	}
+	for _, rw := range tb.AllRows() {
+		if len(rw.Cells()) > 0 {
+			rowIDs = append(rowIDs, g.x.rowID[rw])
+		}
+	}
+	for _, id := range rowIDs {
+		for k := 1; k <= manyProps; k++ {
+			b.WriteString("|" + g.do(fmt.Sprintf("getprop x:%d:0 u%d", id, k)))
+		}
 	}
 	for _, k := range []string{"u1", "u2", "align", "skip"} {
 		b.WriteString("|" + g.do(fmt.Sprintf("getprop t:%d %s", idOf(t), k)))
@@ -998,6 +1057,24 @@ func init() {
 				g.do(fmt.Sprintf("setprop t:%d u1 u77", idOf(t)))
 				g.do(fmt.Sprintf("setprop c:%d:0 u2 u78", idOf(t)))
 			}
+			if c%4 == 1 {
+				// a cell (and a header cell) with many properties of the caller's own: renders add theirs on top
+				var ids []int
+				if h, ok := g.x.hdrOf[idOf(t)]; ok && len(g.x.tables[idOf(t)].Headers()) > 0 {
+					ids = append(ids, h)
+				}
+				for _, rw := range g.x.tables[idOf(t)].AllRows() {
+					if len(rw.Cells()) > 0 {
+						ids = append(ids, g.x.rowID[rw])
+					}
+				}
+				for _, id := range ids {
+					n := 10 + r.n(manyProps-9)
+					for k := 1; k <= n; k++ {
+						g.do(fmt.Sprintf("setprop x:%d:0 u%d u%d", id, k, 200+k))
+					}
+				}
+			}
 			if r.chance(1, 3) {
 				g.do(fmt.Sprintf("regcb %s t:%d %s cell log:1", t, idOf(t), r.pick([]string{"pre", "render", "post"})))
 			}
@@ -1010,6 +1087,9 @@ func init() {
 			ws := map[string]string{}
 			rawDecor := ""
 			n := 3 + r.n(7)
+			if c%10 == 0 {
+				n = 30 + r.n(30) // dozens of renders of the same wrappers
+			}
 			all := g.registeredNames()
 			names := []string{all[r.n(len(all))], all[r.n(len(all))]} // few names per case, so that paths meet
 			for i := 0; i < n; i++ {
@@ -1123,6 +1203,20 @@ func init() {
 				s := r.text(alphaLen, 7)
 				if i == 0 {
 					s = strings.Repeat("\n", c%4) + r.text(alphaLen, 3) + strings.Repeat("\n", (c/4)%4)
+				}
+				if i == 2 {
+					// many lines: every count up to 40 and the powers of two beyond, with the longest line first,
+					// last or in the middle, with and without a closing newline
+					k := 2 + c%39
+					if c%7 == 0 {
+						k = []int{63, 64, 65, 127, 128, 129, 255, 256, 257}[(c/7)%9]
+					}
+					ls := make([]string, k)
+					for j := range ls {
+						ls[j] = r.pick([]string{"", "a", "bc", "世"})
+					}
+					ls[[]int{0, k - 1, k - 1, k / 2}[r.n(4)]] = "the longest line of them all"
+					s = strings.Join(ls, "\n") + []string{"", "", "\n"}[r.n(3)]
 				}
 				res := g.do("lenobs " + hx(s))
 				_, f := parseRes(res)
